@@ -92,6 +92,7 @@ class Mon:
         self.enc = ns.numbers.encode_number
         self.dec = ns.numbers.decode_number
         self.rec = rec
+        self.prev = None  # (n, returned object, snapshot of its bytes): a held result must stay valid
 
     def check_n(self, n):
         rec = self.rec
@@ -101,6 +102,10 @@ class Mon:
             rec.violation("encode-raises", "encode_number(%d) raised %r" % (n, ex), {"n": n})
             return None
         eb = bytes(e)
+        if self.prev is not None and bytes(self.prev[1]) != self.prev[2]:
+            rec.violation("result-aliased", "the object returned by encode_number(%d) changed from %s to %s when encode_number(%d) was called: distinct numbers share one encoding object" % (
+                self.prev[0], self.prev[2].hex(), bytes(self.prev[1]).hex(), n), {"n": self.prev[0], "then": n})
+        self.prev = (n, e, eb)
         if len(eb) != 4 or 0 in eb or 255 in eb:
             rec.violation("wire-unsafe", "encode_number(%d) = %s has wrong length or a 0x00/0xFF byte" % (n, eb.hex()), {"n": n, "enc": eb})
         r = ref.encode(n)
